@@ -37,10 +37,10 @@ type flagCond struct {
 }
 
 type RTA struct {
-	prog   *ssa.Program
-	flags  []flagCond
-	noDesc func(*ssa.Function) bool // functions whose bodies are not traversed (sinks)
-	noAddrReach bool                 // do not treat address-taken functions as reachable from the taker
+	prog        *ssa.Program
+	flags       []flagCond
+	noDesc      func(*ssa.Function) bool                       // functions whose bodies are not traversed (sinks)
+	noAddrReach bool                                           // do not treat address-taken functions as reachable from the taker
 	skipSite    func(f *ssa.Function, in ssa.Instruction) bool // call sites whose out-edges are not followed
 
 	reach     map[*ssa.Function]*rtaEdge // first (BFS) edge by which a function was reached; root: edge with caller nil
